@@ -38,7 +38,7 @@ fn meta() -> Meta {
     Meta {
         id: "C04",
         level: "model_checking",
-        rule: "E1: every word w t with w over {W(5), W(cap-1), W(cap+1), W(3cap), F, CloneDrop, the one-character record \"S\"} up to length 3 (quick) / 4 (thorough) and t in {shutdown(), drop of the last handle, drop of the last handle while its thread unwinds from a panic}, for write mode {Direct, SupportCapture, BufferDontFlush(32), BufferAndFlush(32), Async{1,16}} x output {file, file+Numbers, file+TimestampsDirect, custom writer, stdout, stderr}; E2: 2-3 writes then shutdown / drop against the async writer thread, the logger's flusher thread (tick budget 2) and a concurrent second shutdown from a handle clone, all schedules with <= 2 (quick) / 3 (thorough) preemptions; states = distinct (configuration, position, pending-in-buffer bytes) model states, transitions = operations + scheduling decisions; non-trivial = a write larger than the capacity or a clone-drop before later writes; plus a compressing rotation as seventh output kind and an auxiliary free-running two-drop pass (sampling); E2 also: flush() racing with the log calls of another thread, then flush() again and immediate read-back; E2 also: log_to_file_and_writer with an asynchronous second FileLogWriter whose file is read after shutdown / drop",
+        rule: "E1: every word w t with w over {W(5), W(cap-1), W(cap+1), W(3cap), F, CloneDrop, the one-character record \"S\"} up to length 3 (quick) / 4 (thorough) and t in {shutdown(), drop of the last handle, drop of the last handle while its thread unwinds from a panic}, for write mode {Direct, SupportCapture, BufferDontFlush(32), BufferAndFlush(32), Async{1,16}} x output {file, file+Numbers, file+TimestampsDirect, custom writer, stdout, stderr}; E2: 2-3 writes then shutdown / drop against the async writer thread, the logger's flusher thread (tick budget 2) and a concurrent second shutdown from a handle clone, all schedules with <= 2 (quick) / 3 (thorough) preemptions; states = distinct (configuration, position, pending-in-buffer bytes) model states, transitions = operations + scheduling decisions; non-trivial = a write larger than the capacity or a clone-drop before later writes; plus a compressing rotation as seventh output kind and an auxiliary free-running two-drop pass (sampling); E2 also: flush() racing with the log calls of another thread, then flush() again and immediate read-back; E2 also: log_to_file_and_writer with an asynchronous second FileLogWriter whose file is read after shutdown / drop; the races are judged for a record whose log call completed before the racing call began; variants with the state mutex un-modelled and with shutdown() as racing call; a rotating, directly used FileLogWriter with its flusher thread leaves no empty file",
         assumptions: vec![
             "output is read directly after the call returns (no sleep)".into(),
             "for the custom writer the observable is that flush / shutdown was propagated after the last write".into(),
